@@ -853,6 +853,29 @@ def np_trace(eng, st, args, kw, node):
 
 def np_dot(eng, st, args, kw, node):
     a, b = args
+    if getattr(eng.c, 'dot_support', False) and ndim_of(eng, st, a) == 2 and ndim_of(eng, st, b) == 2:
+        # support semantics of a product of entrywise non-negative matrices (a sum of non-negative terms is non-zero iff one term is):
+        # the result is a fresh matrix P with P >= 0, P[x][y] != 0 <-> exists z: A[x][z] != 0 and B[z][y] != 0  (if A, B >= 0)
+        A0, B0 = as_mat(eng, st, a), as_mat(eng, st, b)
+        # operands through their purified constants, so that the terms A[x][z], B[z][y] occur syntactically (quantifier triggers)
+        ra = a if isinstance(a, Ref) else materialise(eng, st, A0)
+        rb = b if isinstance(b, Ref) else materialise(eng, st, B0)
+        ta, tb = eng.pure(st.heap[ra.oid].term), eng.pure(st.heap[rb.oid].term)
+        A = Mat(A0.shape, lambda x, y, ta=ta: z3.Select(z3.Select(ta, x), y), REAL)
+        B = Mat(B0.shape, lambda x, y, tb=tb: z3.Select(z3.Select(tb, x), y), REAL)
+        n0, n1, n2 = to_z3(A.shape[0], INT), to_z3(A.shape[1], INT), to_z3(B.shape[1], INT)
+        Pt = fresh('dot', A2R)
+        wit = z3.Function('dotwit!%d' % next(core._fresh), INT, INT, INT)
+        x, y, zq = z3.Ints('x!dt y!dt z!dt')
+        nonneg = z3.And(z3.ForAll([x, zq], z3.Implies(z3.And(x >= 0, x < n0, zq >= 0, zq < n1), to_z3(A.fn(x, zq), REAL) >= 0)),
+                        z3.ForAll([zq, y], z3.Implies(z3.And(zq >= 0, zq < n1, y >= 0, y < n2), to_z3(B.fn(zq, y), REAL) >= 0)))
+        pxy = z3.Select(z3.Select(Pt, x), y)
+        inxy = z3.And(x >= 0, x < n0, y >= 0, y < n2)
+        # precondition of the support reading, discharged like any other obligation (Dafny style), then the contract is assumed
+        eng.oblige(st, 'np.dot/operands-entrywise-nonnegative', nonneg)
+        st.pc.append(z3.ForAll([x, y], z3.Implies(inxy, z3.And(pxy >= 0, z3.Implies(pxy != 0, z3.And(wit(x, y) >= 0, wit(x, y) < n1, to_z3(A.fn(x, wit(x, y)), REAL) != 0, to_z3(B.fn(wit(x, y), y), REAL) != 0)))), patterns=[pxy]))
+        st.pc.append(z3.ForAll([x, y, zq], z3.Implies(z3.And(inxy, zq >= 0, zq < n1, to_z3(A.fn(x, zq), REAL) != 0, to_z3(B.fn(zq, y), REAL) != 0), pxy != 0)))
+        return alloc(st, 2, Pt, (A.shape[0], B.shape[1]), REAL)
     if ndim_of(eng, st, a) == 2 and ndim_of(eng, st, b) == 2:
         ra = a if isinstance(a, Ref) else materialise(eng, st, as_mat(eng, st, a))
         rb = b if isinstance(b, Ref) else materialise(eng, st, as_mat(eng, st, b))
